@@ -46,8 +46,19 @@ out.append("Each change below was written by a fresh sub-agent that was given on
            "and needing something specific to manifest. Each was confirmed by the coordinator (`tools/confirm_seed.sh`: demo passes on the clean "
            "tree, fails with the change, full suite passes with the change) and then run against the property's quick check "
            "(`tools/try_seed.sh`: scratch worktree = `/repo` main + patch, `$VERIF_REPO`). Directory: `seeded/<id>/` (patch.diff, demonstration, meta.json).\n")
-out.append("| seed | property | what it does / needs | first run | after strengthening | layer(s) that report it |")
-out.append("|---|---|---|---|---|---|")
+out.append("The last column is a re-run of every archived patch against the final `/repo` main (all `fix:` commits in) with the final checks "
+           "(`seeded/final_rerun.txt`); `n/a (site rewritten)` means the patch no longer applies because a later `fix:` commit rewrote the edited code, "
+           "so the verdict recorded at the time stands.\n")
+out.append("| seed | property | what it does / needs | first run | after strengthening | layer(s) that report it | final tree |")
+out.append("|---|---|---|---|---|---|---|")
+final = {}
+try:
+    for l in open(R + "/seeded/final_rerun.txt"):
+        f = l.split()
+        if len(f) >= 3 and f[0].startswith("C"):
+            final[f[0]] = "n/a (site rewritten)" if f[2] == "NOAPPLY" else ("caught" + (" (proof/correspondence only)" if "no-failing-input-found" in l else "") if "rc=1" in l else "MISSED")
+except Exception:
+    pass
 nd = nm = 0
 for d in sorted(glob.glob(R + "/seeded/*/")):
     mp = d + "meta.json"
@@ -71,8 +82,8 @@ for d in sorted(glob.glob(R + "/seeded/*/")):
         first = ("caught", ""); last = first
     if last[0].startswith("caught"): nd += 1
     else: nm += 1
-    out.append("| %s | %s | %s — needs: %s | %s | %s | %s |" % (sid, m.get("property", "?"), summ, needs, first[0],
-               (last[0] if len(runs) > 1 else "—") + (" — " + m["strengthening"][:200].replace("|", "/") if m.get("strengthening") else ""), last[1] or m.get("detected_by", "")[:90]))
+    out.append("| %s | %s | %s — needs: %s | %s | %s | %s | %s |" % (sid, m.get("property", "?"), summ, needs, first[0],
+               (last[0] if len(runs) > 1 else "—") + (" — " + m["strengthening"][:200].replace("|", "/") if m.get("strengthening") else ""), last[1] or m.get("detected_by", "")[:90], final.get(sid, "—")))
 out.append("")
 out.append("Totals: %d seeded changes kept, %d reported by the current checks, %d not reported.\n" % (nd + nm, nd, nm))
 txt = "\n".join(out)
